@@ -151,6 +151,7 @@ static bool runScenario(const char *name, bool fill, const std::vector<Call> &ca
   const std::size_t n = calls.size();
   std::vector<std::atomic<long>> tids(n);
   std::vector<int> result(n, -1);
+  std::atomic<std::size_t> returned{0};
   std::vector<std::thread> threads;
   for (std::size_t i = 0; i < n; ++i)
   {
@@ -162,12 +163,28 @@ static bool runScenario(const char *name, bool fill, const std::vector<Call> &ca
     {
       tids[i].store(static_cast<long>(::syscall(SYS_gettid)), std::memory_order_release);
       result[i] = calls[i](*q) ? 1 : 0; // parks: empty queue for consumers, full queue for producers
+      returned.fetch_add(1, std::memory_order_release);
     });
   }
 
   waitParked(tids);
 
   delete q; // documented: "closes the queue and wakes all waiting threads"
+
+  // Every parked caller must come back. On the unfixed tree a woken caller re-locks _mutex after the
+  // memory was freed; the allocator has by then stamped its own bookkeeping over the first bytes of the
+  // object (= the mutex's lock word), the word reads "locked" and the caller blocks for ever.
+  const auto deadline = std::chrono::steady_clock::now() + std::chrono::seconds(3);
+  while (returned.load(std::memory_order_acquire) != n)
+  {
+    if (std::chrono::steady_clock::now() > deadline)
+    {
+      defect("a caller woken by ~BlockingQueue() never returned: it re-locked _mutex after the queue was "
+             "destroyed and freed and is blocked on the dead mutex");
+      _exit(1);
+    }
+    std::this_thread::sleep_for(std::chrono::microseconds(200));
+  }
 
   for (auto &t : threads)
   {
@@ -186,11 +203,6 @@ static bool runScenario(const char *name, bool fill, const std::vector<Call> &ca
 
 int main()
 {
-#if !defined(REPLAY_ASAN) && !defined(REPLAY_TSAN)
-  std::printf("ERROR: build with -fsanitize=address or -fsanitize=thread; the defect is a use of destroyed "
-              "members and is silent otherwise\n");
-  return 2;
-#endif
   std::signal(SIGALRM, onAlarm);
   ::alarm(15);
 
